@@ -1,5 +1,5 @@
 (* C02 - handling order respects mailbox acceptance order.  Property theorems only. *)
-From RS Require Import Tactics Spec Lifecycle Queue QueueStep CoreInv Delivery.
+From RS Require Import Tactics Spec Lifecycle Queue QueueStep CoreInv Delivery AccTrace Reply RealTime.
 
 (* FIFO: the sequence of handler entries is the sequence of envelopes in acceptance order,
    cut at some point - there is one queue, and handlers run inline in the loop *)
@@ -27,7 +27,48 @@ Theorem C02_one_queue : forall f ls a x o k,
   exists p, get_op (run f ls) o = Some p /\ o_tgt p = a /\ o_kind p = k /\ accepted_phase k (o_ph p).
 Proof. intros f ls. exact (proj1 (proj2 (q_ok_run f ls))). Qed.
 
+(* the mailbox history is exactly the sequence of acceptances in the global trace *)
+Theorem C02_accepted_iff_logged : forall f ls a x o k,
+  get_actor (run f ls) a = Some x ->
+  (In (o, k) (a_accepted x) <-> In (EvAccept a o k) (s_trace (run f ls))).
+Proof. exact accepted_iff_logged. Qed.
+
+(* a send that has completed successfully (tell returned Ok, ask is waiting for or has got its
+   reply) is in the mailbox history of its target *)
+Theorem C02_sent_is_accepted : forall f ls o p,
+  get_op (run f ls) o = Some p -> sent_ok p ->
+  exists x, get_actor (run f ls) (o_tgt p) = Some x /\ In (o, o_kind p) (a_accepted x).
+Proof. exact run_sent_is_accepted. Qed.
+
+(* real-time order, any two senders: if o1's send had completed before o2 was begun, then o1 sits
+   before o2 in the mailbox history whatever happens afterwards (ls2); with C02_fifo, o1's handler
+   is entered first.  A single sender's program order is the special case where the sender begins
+   its next send after the previous one returned. *)
+Theorem C02_realtime_order : forall f ls ls2 o1 p1 o2 k2 y,
+  get_op (run f ls) o1 = Some p1 -> sent_ok p1 -> get_op (run f ls) o2 = None ->
+  get_actor (run f (ls ++ ls2)) (o_tgt p1) = Some y -> In (o2, k2) (a_accepted y) ->
+  exists l1 l2 l3, a_accepted y = l1 ++ (o1, o_kind p1) :: l2 ++ (o2, k2) :: l3.
+Proof. exact run_realtime_order. Qed.
+
+(* non-vacuity: capacity 1; tell 1 is accepted, tell 2 and ask 3 are begun while the mailbox is full
+   and overtake nothing: handled 1, 2, 3 *)
+Definition c02_example : list label :=
+  [LSpawn 1; AStartDone 0 HOk; LBegin 1 KTell 0 None None FTell; LBegin 2 KTell 0 None None FTell;
+   APassBegin 0 0; APoll 0 RPending; APoll 0 RPending; LPoll 2; LBegin 3 KAsk 0 None None FAsk;
+   AHandleDone 0 HOk; APassBegin 0 0; APoll 0 RPending; APoll 0 RPending; LPoll 3; AHandleDone 0 HOk;
+   APassBegin 0 0; APoll 0 RPending; APoll 0 RPending; AHandleDone 0 (HReply 7); LPoll 3].
+Example C02_example_run :
+  handled_events (hook_events (run no_feats c02_example) 0) = [1; 2; 3] /\
+  option_map (fun x => oids (a_accepted x)) (get_actor (run no_feats c02_example) 0) = Some [1; 2; 3] /\
+  option_map o_ph (get_op (run no_feats c02_example) 3) = Some (ODone (ROk 7)).
+Proof. vm_compute. repeat split; reflexivity. Qed.
+
 Check C02_fifo. Check C02_stop_in_order. Check C02_one_queue.
+Check C02_accepted_iff_logged. Check C02_sent_is_accepted. Check C02_realtime_order.
+Print Assumptions C02_accepted_iff_logged.
+Print Assumptions C02_sent_is_accepted.
+Print Assumptions C02_realtime_order.
+Print Assumptions C02_example_run.
 Print Assumptions C02_fifo.
 Print Assumptions C02_stop_in_order.
 Print Assumptions C02_one_queue.
